@@ -142,7 +142,8 @@ pub fn raw_name_to_ts_field(value: String) -> String {
     let does_not_start_with_digit = value
         .chars()
         .next()
-        .map_or(true, |first| !first.is_numeric());
+        // the empty name has to be quoted as well
+        .map_or(false, |first| !first.is_numeric());
 
     let valid = valid_chars && does_not_start_with_digit;
 
